@@ -292,7 +292,28 @@ def _events(args):
             srcp = [[s[0], s[1], s[2], [_lower_expected(s[3].qualifiers), [merged(t, s[3]) for t in s[4]]]]
                     for s in src]
             try:
-                if add_seq:
+                if add_seq and rnd.random() < 0.5:
+                    # the sequence in a FASTA file of its own (collection_to_fasta), the rows in a GFF3 file without one
+                    from inscripta.biocantor.io.fasta.fasta import collection_to_fasta
+                    from inscripta.biocantor.io.gff3.parser import parse_gff3_fasta
+
+                    fa = path + ".fa"
+                    with open(fa, "w") as fh:
+                        collection_to_fasta([coll], fh)
+                    b0 = io.StringIO()
+                    collection_to_gff3([coll], b0, add_sequences=False)
+                    open(path, "w").write(b0.getvalue())
+                    try:
+                        recs = list(parse_gff3_fasta(path, fa))
+                        # the FASTA file by an independent reading: one record, named as the sequence, the same residues
+                        lines = open(fa).read().splitlines()
+                        heads = [ln for ln in lines if ln.startswith(">")]
+                        if len(heads) != 1 or heads[0][1:].split()[0] != str(coll.sequence_name) or \
+                                "".join(ln.strip() for ln in lines if not ln.startswith(">")) != str(coll.sequence):
+                            raise AttributeError("FASTA file does not hold the collection's sequence")
+                    finally:
+                        os.remove(fa)
+                elif add_seq:
                     recs = list(parse_gff3_embedded_fasta(path))
                 else:
                     recs = list(parse_standard_gff3(path))
